@@ -221,7 +221,11 @@ var noView = lib.L("0", "0", "2", "0", "0", "0", "-1", "-1", "0", "-1", "0")
 
 // scionView runs the parser of the client on a datagram and returns the
 // model's view of it and the SCION/UDP payload.
-func scionView(buf []byte) (view string, payload []byte, vi viewInfo) {
+func scionView(buf []byte) (view string, payload []byte, vi viewInfo) { return scionViewPort(buf, 0) }
+
+// scionViewPort: port != 0: the SCION/UDP port the request was sent to; a datagram with
+// another SCION/UDP source port does not come from the queried endpoint (source host: none)
+func scionViewPort(buf []byte, port uint16) (view string, payload []byte, vi viewInfo) {
 	defer func() {
 		if recover() != nil {
 			view, payload, vi = noView, nil, viewInfo{ts: -1}
@@ -279,8 +283,12 @@ func scionView(buf []byte) (view string, payload []byte, vi viewInfo) {
 			}
 		}
 	}
+	srcNum := hostNum(scn.RawSrcAddr, scn.SrcAddrType)
+	if port != 0 && last == 0 && u.SrcPort != port {
+		srcNum = -1
+	}
 	return lib.L("1", lib.I(int64(len(decoded))), lib.I(last), lib.Bool(lenOK), lib.U(uint64(scn.SrcIA)), lib.U(uint64(scn.DstIA)),
-		lib.I(hostNum(scn.RawSrcAddr, scn.SrcAddrType)), lib.I(hostNum(scn.RawDstAddr, scn.DstAddrType)), lib.Bool(vi.e2e), lib.I(vi.ts), lib.I(int64(vi.auth))), payload, vi
+		lib.I(srcNum), lib.I(hostNum(scn.RawDstAddr, scn.DstAddrType)), lib.Bool(vi.e2e), lib.I(vi.ts), lib.I(int64(vi.auth))), payload, vi
 }
 
 func (w *worker) startSCION() {
@@ -624,6 +632,13 @@ func (w *worker) scionDatagram(rc recipe, rq *reqRec, idx int, good scionHdr) (d
 		inner = recipe{kind: int(rc.p1 % 2), p2: rc.p2}
 	case rc.kind == 33:
 		return lib.NewRng(uint64(rc.p2) + 99).Bytes(int(rc.p1)), false, inner
+	case rc.kind == 34:
+		// the genuine response with another SCION/UDP source port than the one that was queried
+		h.srcPort, fs = h.srcPort+uint16(1+rc.p1%3000), false
+		inner = recipe{kind: 0, p2: rc.p2}
+		if rc.p2%4 == 3 {
+			inner.kind = 1
+		}
 	case rc.kind == 36:
 		host := h.srcHost
 		if rc.p1 >= 10 {
@@ -779,7 +794,7 @@ func (w *worker) scionLoop() {
 		var genuine []byte
 		for i, rc := range rq.recipes {
 			dg, fs, inner := w.scionDatagram(rc, rq, i, good)
-			view, pl, vi := scionView(dg)
+			view, pl, vi := scionViewPort(dg, u.DstPort)
 			d := dgramRec{fromServer: fs, payload: pl, raw: dg, front: view, vi: vi}
 			if rc.kind == 27 {
 				d.delayMs = rc.p1
@@ -841,6 +856,9 @@ func genScriptSCION(r *lib.Rng, nts bool) []recipe {
 			switch r.Intn(5) {
 			case 0:
 				s[i] = recipe{kind: 30 + r.Intn(3), p1: int64(r.Intn(2)), p2: int64(r.Intn(1 << 16))}
+				if r.Intn(3) == 0 {
+					s[i] = recipe{kind: 34, p1: int64(r.Intn(3000)), p2: int64(r.Intn(1 << 16))}
+				}
 			case 2, 3:
 				// host addresses that resemble the queried server's (the client's) without being it
 				s[i] = recipe{kind: 36, p1: int64(r.Intn(nHostForms) + 10*lib.Pick(r, 0, 0, 1)), p2: int64(r.Intn(1 << 16))}
